@@ -86,7 +86,7 @@ pub const NUMS: &[&str] = &[
 pub const TEXTS: &[&str] = &[
     "main", "develop", "release/1", "release/1/2", "release/x", "feature/login", "é", "日本語", "a\u{0301}", "", "-", "--", "x y", "ſ",
     "\u{1F680}", "a\nb", "a\"b", "a\\b", "{{ major }}", "{{", "%s%n", "ÀÉÎ", "İ", "ß", "ǅ", "٣", "ｆｕｌｌ", "a/b/c/d/e/f", "....", "/",
-    "\u{200b}", "\u{feff}x", "\u{202e}rtl", "null", "None", "0", "00012", "\t",
+    "\u{200b}", "\u{feff}x", "\u{202e}rtl", "null", "None", "0", "00012", "\t", "a\r\nb", "\r", "x\ty", " lead", "trail ", "a\u{0085}b", "a\u{2028}b",
 ];
 
 pub const HASHES: &[&str] = &[
@@ -196,6 +196,109 @@ pub const INDEX_VALUES: &[&str] = &[
 pub const LABELS: &[&str] = &["alpha", "beta", "rc", "none", "null", "a", "b", "gamma", "", "ALPHA", "{{ 'rc' }}", "{% if dirty %}alpha{% else %}beta{% endif %}", "{{", "é"];
 
 pub const PATHS: &[&str] = &["", "/", "/nonexistent", "/etc/passwd", ".", "..", "/dev/null", "é", "/proc/self", "a\nb", "~", "$REPO", "$REPO/", "$REPO/.git", "$REPO/../repo"];
+
+/// The whole adversarial value class of a flag (for systematic enumeration).
+pub fn class_for(flag: &str) -> Vec<String> {
+    let v = |x: &[&str]| x.iter().map(|s| s.to_string()).collect::<Vec<_>>();
+    match flag {
+        "source" => v(&["git", "stdin", "none", "bogus", ""]),
+        "input-format" | "format" => v(&["auto", "semver", "pep440", "zerv", "bogus", "", "AUTO"]),
+        "output-format" => v(&["semver", "pep440", "zerv", "bogus", ""]),
+        "directory" => v(PATHS),
+        "output-template" | "template" => v(TEMPLATES),
+        "output-prefix" => v(&["v", "", "release-", "é", "{{ major }}", "\n", "v v"]),
+        "schema" => v(SCHEMAS),
+        "schema-ron" => v(SCHEMA_RONS),
+        "tag-version" => v(VERSIONS),
+        "bumped-branch" => v(TEXTS),
+        "bumped-commit-hash" => v(HASHES),
+        "custom" => v(CUSTOMS),
+        "core" | "extra-core" | "build" | "bump-core" | "bump-extra-core" | "bump-build" => v(INDEX_VALUES),
+        "pre-release-label" | "bump-pre-release-label" => v(LABELS),
+        "post-mode" => v(&["tag", "commit", "never", "", "TAG"]),
+        "branch-rules" => v(BRANCH_RULES),
+        "hash-branch-len" => v(&["0", "1", "5", "9", "10", "11", "20", "4294967296", "-1", "x"]),
+        "distance" | "major" | "minor" | "patch" | "epoch" | "post" | "dev" | "pre-release-num" | "bumped-timestamp" | "bump-major" | "bump-minor"
+        | "bump-patch" | "bump-post" | "bump-dev" | "bump-pre-release-num" | "bump-epoch" => v(NUMS),
+        _ => v(TEXTS),
+    }
+}
+
+/// Every (flag, value) of every value class once, on top of a command that otherwise works:
+/// the deterministic part of the argv workload (each adversarial value is certain to reach the
+/// code behind its flag, which random combination of several bad flags does not guarantee).
+pub fn systematic() -> Vec<Vec<String>> {
+    let table = flags();
+    let mut out: Vec<Vec<String>> = vec![];
+    let s = |x: &[&str]| x.iter().map(|s| s.to_string()).collect::<Vec<String>>();
+    for sub in ["version", "flow"] {
+        let bases: Vec<Vec<String>> = vec![
+            s(&[sub, "--source", "none", "--tag-version", "1.2.3", "--bumped-branch", "feature/x-1", "--bumped-commit-hash", "gabcdef1234567", "--distance", "3"]),
+            s(&[sub, "--source", "none", "--tag-version", "v2.0.0-rc.4.post.5", "--bumped-branch", "release/7", "--dirty", "--bumped-timestamp", "1700000000"]),
+        ];
+        for f in &table[sub] {
+            if f.value.is_none() || f.long == "help" {
+                continue;
+            }
+            for val in class_for(&f.long) {
+                // the second base only for the classes that read more of the object
+                let nb = if matches!(f.long.as_str(), "output-template" | "schema" | "schema-ron" | "custom") { 2 } else { 1 };
+                for b in bases.iter().take(nb) {
+                    let mut a = b.clone();
+                    if f.long == "tag-version" || f.long == "bumped-branch" || f.long == "bumped-commit-hash" || f.long == "distance" || f.long == "source" || f.long == "bumped-timestamp" {
+                        // replace the base's own value instead of repeating the flag
+                        if let Some(i) = a.iter().position(|x| x == &format!("--{}", f.long)) {
+                            a.drain(i..i + 2);
+                        }
+                    }
+                    a.push(format!("--{}", f.long));
+                    a.push(val.clone());
+                    out.push(a);
+                }
+            }
+        }
+        // switches, each alone
+        for f in &table[sub] {
+            if f.value.is_none() && f.long != "help" {
+                let mut a = bases[0].clone();
+                a.push(format!("--{}", f.long));
+                out.push(a);
+            }
+        }
+    }
+    for ver in VERSIONS {
+        for inf in ["auto", "semver", "pep440", "zerv"] {
+            for outf in ["semver", "pep440", "zerv"] {
+                out.push(s(&["render", ver, "--input-format", inf, "--output-format", outf]));
+            }
+        }
+        for f in ["semver", "pep440", "zerv", "auto"] {
+            out.push(s(&["check", ver, "--format", f]));
+        }
+        out.push(s(&["check", ver]));
+    }
+    // template functions x value x length (the value decides how long the natural result is)
+    for i in 0..40 {
+        let val = format!("v{i}");
+        for len in [15usize, 16, 17, 19, 20, 21, 64] {
+            out.push(s(&["render", "1.2.3", "--output-template", &format!("{{{{ hash(value='{val}', length={len}) }}}}")]));
+            out.push(s(&["render", "1.2.3", "--output-template", &format!("{{{{ hash_int(value='{val}', length={len}) }}}}")]));
+        }
+        out.push(s(&["render", "1.2.3", "--output-template", &format!("{{{{ hash_int(value='{val}', length=22, allow_leading_zero=true) }}}}")]));
+    }
+    for val in ["é", "日本語", "a\u{0301}b", "🚀🚀", "ab", ""] {
+        for len in 0..7usize {
+            out.push(s(&["render", "1.2.3", "--output-template", &format!("{{{{ prefix(value='{val}', length={len}) }}}}")]));
+            out.push(s(&["render", "1.2.3", "--output-template", &format!("{{{{ sanitize(value='{val}', max_length={len}) }}}}")]));
+            out.push(s(&["render", "1.2.3", "--output-template", &format!("{{{{ sanitize(value='x/{val}', preset='pep440', max_length={len}) }}}}")]));
+        }
+    }
+    for t in TEMPLATES {
+        out.push(s(&["render", "1.2.3-alpha.4+b.5", "--output-template", t]));
+        out.push(s(&["render", "7!1.2rc3.post4.dev5+local.6", "--input-format", "pep440", "--output-template", t]));
+    }
+    out
+}
 
 /// A value for one flag, by flag name.
 pub fn value_for(flag: &str, r: &mut Rng, adversarial: bool) -> String {
